@@ -556,7 +556,7 @@ def run(ctx):
             frontier = nxt
             ctx.log('lockstep', mod, cfg.get('kind', cfg.get('flavour', '')), 'depth', d,
                     'states', len(seen), 'programs', nprog)
-            if ctx.viol:
+            if ctx.unknown_viol():
                 break
         ctx.info['lockstep/%s/%s' % (mod, cfg.get('kind', cfg.get('flavour', '')))] = dict(
             depth=depth, states=len(seen))
